@@ -401,6 +401,9 @@ impl Case {
                             }
                         }
                         rooms.sort();
+                        // the real list names a room once per entity modified on the room's last day
+                        // (DailyLog::sort_rooms joins on the last day's log rows): a set for this probe
+                        rooms.dedup();
                         if rooms.is_empty() { "rooms".into() } else { format!("rooms:{}", rooms.join("+")) }
                     }
                     1 => match bincode::deserialize::<HardwareFingerprint>(&answers[0].serialized) {
